@@ -122,6 +122,7 @@ KEY_RAW = "remove-spaces-ellipsis-after-line-comment:(--c\\n...number)"
 KEY_END_SEMI = "append-end-before-semicolon:local_a=1;"
 KEY_MISCLASSIFIED = "append-text-misclassified-line-comment:[a["
 KEY_DOTNUM = "trailing-dot-number-fused:5.--[[c]]end"
+KEY_MISCLASSIFIED_SRC = "remove-spaces-misclassified-line-comment:--[a[_odd"
 KEY_MINUS = "remove-spaces-minus-before-comment:a_-_--_c"
 
 
@@ -386,6 +387,17 @@ def dot_number_before_word(src):
     return False
 
 
+def misclassified_comment_in_source(src):
+    """a line comment (reference lexer) that darklua's generator takes for a long comment"""
+    data = src.encode("utf-8")
+    try:
+        _, comments = L.lex(data)
+    except L.LexError:
+        return False
+    return any(L.long_bracket_level(c.text, 2) is None and generator_says_long(c.text.decode("utf-8", "replace"))
+               for c in comments if c.kind == "comment")
+
+
 def joined(comments):
     return b"".join(comments)
 
@@ -479,6 +491,7 @@ def run(ctx):
         "local y = a - --[[c]] b\nreturn - --[[d]] y\n",
         "type F = (--c\n...number) -> ()\nlocal x = 1\n",
         "if x then return 5.--[[c]]end\n",
+        "local t = {} --[a[ odd\n--[==[ multi\nline ]==] t.x = 1\n",
     ] + list(G.TYPED_SOURCES)
     sources = [s for s in G.FIXED_SOURCES] + special_sources + gen_sources
     cr_sources = ["-- a\rprint(2)\nprint(1)\n", "print(1) -- a\rprint(2)\r"]
@@ -574,6 +587,8 @@ def run(ctx):
                     key = KEY_MINUS
                 if key is None and kind == "append+spaces" and dot_number_before_word(src):
                     key = KEY_DOTNUM
+                if key is None and kind == "append+spaces" and misclassified_comment_in_source(src):
+                    key = KEY_MISCLASSIFIED_SRC
                 if key is None and loc == "end" and "moved code b';'" in problem:
                     key = KEY_END_SEMI
             elif kind == "append" and loc == "end" and text:
@@ -597,7 +612,8 @@ def run(ctx):
                 # darklua's view of a line comment in a CRLF file includes the CR
                 data = o.src
                 alt = [c.text for c in o.lin[1]
-                       if keep(c.text + (b"\r" if data[c.end:c.end + 2] == b"\r\n" and not c.text.endswith(b"]") else b""))]
+                       if keep(c.text + (b"\r" if data[c.end:c.end + 2] == b"\r\n"
+                                         and L.long_bracket_level(c.text, 2) is None else b""))]
                 if joined(alt) == joined([c.text for c in o.lout[1]]):
                     key = KEY_CRLF
             if problem is not None and problem.startswith("code") and dot_number_before_word(src):
@@ -608,6 +624,8 @@ def run(ctx):
                 key = KEY_MINUS
             elif problem is not None and kind != "remove_comments" and ellipsis_after_line_comment(src):
                 key = KEY_RAW
+            elif problem is not None and kind != "remove_comments" and key is None and misclassified_comment_in_source(src):
+                key = KEY_MISCLASSIFIED_SRC
             samples.setdefault(kind, {"except": meta["except"], "source": src[:60], "output": out[:80]})
         elif kind == "remove_spaces":
             if has_comment:
@@ -621,6 +639,8 @@ def run(ctx):
                 key = KEY_RAW
             elif problem is not None and dot_number_before_word(src):
                 key = KEY_DOTNUM
+            elif problem is not None and misclassified_comment_in_source(src):
+                key = KEY_MISCLASSIFIED_SRC
         elif kind.startswith("generator:"):
             gname = kind.split(":")[1]
             base = base_out.get((gname, src))
